@@ -17,6 +17,7 @@ type Config struct {
 	MaxTicks  int
 	MakeCut   int
 	Params    map[string]int
+	AnyOnly      bool // delays are spent only on resuming verifPauseAny threads
 	TimerPreempt bool // a pending timer may fire at any scheduling point (one delay)
 	Delays    int
 	Race      bool
